@@ -1,7 +1,801 @@
-//! C09 — not built yet.
-use lv_common::Ctx;
+//! C09 — An EDS fetched over shrex matches the header's DAH (shrex `ResponseCodec for
+//! ExtendedDataSquare`), plus the node half of C05: the shrex ROW response codec (sub-check
+//! `c05-shrex-row`, labels prefixed `row-`).
+//!
+//! Hooks: `lumina_node::verif::shrex_codec` (additive wrappers around the crate-private codec).
+use celestia_proto::shwap::{Row as RawRow, Share as RawShare, row::HalfSide};
+use celestia_types::nmt::{NamespacedHash, NamespacedHashExt};
+use celestia_types::row::{Row, RowId};
+use celestia_types::{DataAvailabilityHeader, ExtendedDataSquare, ExtendedHeader};
+use lumina_node::verif::shrex_codec as hook;
+use lv_common::prelude::*;
+use lv_common::{Prng, no_panic};
+use lv_gen::panicsite::site_sig as panic_sig;
+use lv_gen::chain::{app_version_of, build_header, build_set};
+use lv_gen::mutate::{ByteMut, byte_mut_strategy};
+use lv_gen::square::{Square, SquareSpec, build_square, ref_axis_root, square_strategy};
+use prost::Message;
+use tendermint::Time;
 
-pub fn run(_ctx: &mut Ctx) {
-    eprintln!("C09: check not built yet");
-    std::process::exit(2);
+const SHARE: usize = 512;
+const NS: usize = 29;
+
+// ------------------------------------------------------------------------------------------ recipe
+
+#[derive(Clone, Debug, Serialize, Deserialize)]
+pub enum Region {
+    NsVersion,
+    NsId,
+    InfoByte,
+    SeqLen,
+    Payload,
+    Last,
+}
+
+#[derive(Clone, Debug, Serialize, Deserialize)]
+pub enum PayMut {
+    /// truncate to `pos` (scaled over the length) bytes
+    TruncBytes { pos: u16 },
+    /// append a share: 0 = copy of the last share, 1 = tail padding, 2 = random v0 user share, 3 = zeros
+    AppendShare { kind: u8 },
+    SwapShares { a: u16, b: u16 },
+    Flip { share: u16, region: Region, off: u16, bit: u8 },
+    /// ODS of the other generated square
+    OtherSquare,
+    /// one share replaced by a share of the other square
+    SpliceOther { at: u16, from: u16 },
+    DropShare { i: u16 },
+    DupShare { i: u16 },
+    SwapRows { a: u16, b: u16 },
+    Transpose,
+    ZeroShare { i: u16 },
+    /// k-fold repetition of the payload (4x = a plausible bigger square)
+    Repeat { k: u8 },
+    Bytes(ByteMut),
+}
+
+#[derive(Clone, Debug, Serialize, Deserialize)]
+pub enum DahMut {
+    SwapRowCol,
+    /// column root i replaced: 0 = by row root i of the same square, 1 = by column root of the other square, 2 = by column root j
+    ReplaceCol { i: u16, how: u8, j: u16 },
+    ReplaceRow { i: u16, how: u8, j: u16 },
+    /// all column roots of the other square (kept only when widths agree)
+    ColsOfOther,
+    RowsOfOther,
+    FlipRootByte { row_axis: bool, i: u16, byte: u16, bit: u8 },
+    DropLastCol,
+    DupLastRowAndCol,
+    SwapTwoCols { a: u16, b: u16 },
+}
+
+#[derive(Clone, Debug, Serialize, Deserialize)]
+pub struct Case {
+    pub square: SquareSpec,
+    pub other: SquareSpec,
+    /// app version of the header (1..=7)
+    pub app: u8,
+    /// a different app version for the wrong-app-version probes
+    pub wrong_app: u8,
+    pub muts: Vec<PayMut>,
+    pub dah_muts: Vec<DahMut>,
+}
+
+fn region_strategy() -> impl Strategy<Value = Region> {
+    prop_oneof![
+        1 => Just(Region::NsVersion),
+        2 => Just(Region::NsId),
+        2 => Just(Region::InfoByte),
+        1 => Just(Region::SeqLen),
+        3 => Just(Region::Payload),
+        1 => Just(Region::Last),
+    ]
+}
+
+fn pay_mut_strategy() -> impl Strategy<Value = PayMut> {
+    prop_oneof![
+        2 => any::<u16>().prop_map(|pos| PayMut::TruncBytes { pos }),
+        2 => (0u8..4).prop_map(|kind| PayMut::AppendShare { kind }),
+        4 => (any::<u16>(), any::<u16>()).prop_map(|(a, b)| PayMut::SwapShares { a, b }),
+        8 => (any::<u16>(), region_strategy(), any::<u16>(), 0u8..8).prop_map(|(share, region, off, bit)| PayMut::Flip { share, region, off, bit }),
+        1 => Just(PayMut::OtherSquare),
+        2 => (any::<u16>(), any::<u16>()).prop_map(|(at, from)| PayMut::SpliceOther { at, from }),
+        1 => any::<u16>().prop_map(|i| PayMut::DropShare { i }),
+        1 => any::<u16>().prop_map(|i| PayMut::DupShare { i }),
+        2 => (any::<u16>(), any::<u16>()).prop_map(|(a, b)| PayMut::SwapRows { a, b }),
+        1 => Just(PayMut::Transpose),
+        1 => any::<u16>().prop_map(|i| PayMut::ZeroShare { i }),
+        1 => prop_oneof![Just(2u8), Just(4u8)].prop_map(|k| PayMut::Repeat { k }),
+        3 => byte_mut_strategy().prop_map(PayMut::Bytes),
+    ]
+}
+
+fn dah_mut_strategy() -> impl Strategy<Value = DahMut> {
+    prop_oneof![
+        1 => Just(DahMut::SwapRowCol),
+        4 => (any::<u16>(), 0u8..3, any::<u16>()).prop_map(|(i, how, j)| DahMut::ReplaceCol { i, how, j }),
+        3 => (any::<u16>(), 0u8..3, any::<u16>()).prop_map(|(i, how, j)| DahMut::ReplaceRow { i, how, j }),
+        1 => Just(DahMut::ColsOfOther),
+        1 => Just(DahMut::RowsOfOther),
+        3 => (any::<bool>(), any::<u16>(), any::<u16>(), 0u8..8).prop_map(|(row_axis, i, byte, bit)| DahMut::FlipRootByte { row_axis, i, byte, bit }),
+        1 => Just(DahMut::DropLastCol),
+        1 => Just(DahMut::DupLastRowAndCol),
+        2 => (any::<u16>(), any::<u16>()).prop_map(|(a, b)| DahMut::SwapTwoCols { a, b }),
+    ]
+}
+
+fn case_strategy(max_log2: u8, nmuts: usize) -> impl Strategy<Value = Case> {
+    (
+        square_strategy(0, max_log2),
+        square_strategy(0, max_log2),
+        1u8..=7,
+        1u8..=7,
+        prop::collection::vec(pay_mut_strategy(), 1..=2 * nmuts),
+        prop::collection::vec(dah_mut_strategy(), 0..=16),
+    )
+        .prop_map(|(square, other, app, wrong_app, muts, dah_muts)| Case { square, other, app, wrong_app, muts, dah_muts })
+}
+
+// ------------------------------------------------------------------------------------------ helpers
+
+fn header_for(seed: u64, height: u64, app: u8, dah: DataAvailabilityHeader) -> ExtendedHeader {
+    let (set, keys) = build_set(seed, &[(0, 10)]);
+    let time = Time::from_unix_timestamp(1_650_000_000, 0).unwrap();
+    let next = set.hash();
+    build_header(seed, "private", height, app, time, None, &set, &keys, next, &[], dah, 0)
+}
+
+fn concat(shares: &[Vec<u8>]) -> Vec<u8> {
+    let mut v = Vec::with_capacity(shares.len() * SHARE);
+    for s in shares {
+        v.extend_from_slice(s);
+    }
+    v
+}
+
+fn is_pow4(n: usize) -> bool {
+    n != 0 && n.is_power_of_two() && n.trailing_zeros() % 2 == 0
+}
+
+/// passes the decoder's size checks: non-empty, multiple of the share size, 4^k shares
+fn right_length_class(p: &[u8]) -> bool {
+    !p.is_empty() && p.len() % SHARE == 0 && is_pow4(p.len() / SHARE)
+}
+
+fn apply_pay_mut(m: &PayMut, honest: &[u8], other: &[u8], k: usize, seed: u64) -> (Vec<u8>, &'static str) {
+    let n = honest.len() / SHARE;
+    let mut v = honest.to_vec();
+    let share_at = |v: &[u8], i: usize| v[i * SHARE..(i + 1) * SHARE].to_vec();
+    let label = match m {
+        PayMut::TruncBytes { pos } => {
+            v.truncate(pick(*pos, v.len()));
+            "trunc-bytes"
+        }
+        PayMut::AppendShare { kind } => {
+            let mut s = vec![0u8; SHARE];
+            match kind {
+                0 => s = share_at(&v, n - 1),
+                1 => {
+                    s[..NS].copy_from_slice(&[0xff; NS]);
+                    s[NS - 1] = 0xfe;
+                    s[NS] = 1;
+                }
+                2 => {
+                    let mut r = Prng::new(seed ^ 0xa99e);
+                    r.fill(&mut s);
+                    s[..NS].copy_from_slice(&v[(n - 1) * SHARE..(n - 1) * SHARE + NS]);
+                    s[NS] = 1;
+                }
+                _ => {}
+            }
+            v.extend_from_slice(&s);
+            "append-share"
+        }
+        PayMut::SwapShares { a, b } => {
+            let (a, b) = (pick(*a, n), pick(*b, n));
+            let (sa, sb) = (share_at(&v, a), share_at(&v, b));
+            v[a * SHARE..(a + 1) * SHARE].copy_from_slice(&sb);
+            v[b * SHARE..(b + 1) * SHARE].copy_from_slice(&sa);
+            "swap-shares"
+        }
+        PayMut::Flip { share, region, off, bit } => {
+            let s = pick(*share, n);
+            let (o, label) = match region {
+                Region::NsVersion => (0, "flip-ns-version"),
+                Region::NsId => (1 + pick(*off, NS - 1), "flip-namespace"),
+                Region::InfoByte => (NS, "flip-info-byte"),
+                Region::SeqLen => (NS + 1 + pick(*off, 4), "flip-seq-len"),
+                Region::Payload => (NS + 5 + pick(*off, SHARE - NS - 5), "flip-payload"),
+                Region::Last => (SHARE - 1, "flip-last-byte"),
+            };
+            v[s * SHARE + o] ^= 1 << (bit % 8);
+            label
+        }
+        PayMut::OtherSquare => {
+            v = other.to_vec();
+            "other-square"
+        }
+        PayMut::SpliceOther { at, from } => {
+            let a = pick(*at, n);
+            let f = pick(*from, other.len() / SHARE);
+            v[a * SHARE..(a + 1) * SHARE].copy_from_slice(&other[f * SHARE..(f + 1) * SHARE]);
+            "splice-other-share"
+        }
+        PayMut::DropShare { i } => {
+            let i = pick(*i, n);
+            v.drain(i * SHARE..(i + 1) * SHARE);
+            "drop-share"
+        }
+        PayMut::DupShare { i } => {
+            let i = pick(*i, n);
+            let s = share_at(&v, i);
+            v.splice(i * SHARE..i * SHARE, s);
+            "dup-share"
+        }
+        PayMut::SwapRows { a, b } => {
+            let (a, b) = (pick(*a, k), pick(*b, k));
+            let rl = k * SHARE;
+            let (ra, rb) = (v[a * rl..(a + 1) * rl].to_vec(), v[b * rl..(b + 1) * rl].to_vec());
+            v[a * rl..(a + 1) * rl].copy_from_slice(&rb);
+            v[b * rl..(b + 1) * rl].copy_from_slice(&ra);
+            "swap-rows"
+        }
+        PayMut::Transpose => {
+            let mut t = Vec::with_capacity(v.len());
+            for c in 0..k {
+                for r in 0..k {
+                    t.extend_from_slice(&honest[(r * k + c) * SHARE..(r * k + c + 1) * SHARE]);
+                }
+            }
+            v = t;
+            "transpose"
+        }
+        PayMut::ZeroShare { i } => {
+            let i = pick(*i, n);
+            v[i * SHARE..(i + 1) * SHARE].fill(0);
+            "zero-share"
+        }
+        PayMut::Repeat { k } => {
+            v = honest.repeat(*k as usize);
+            "repeat-payload"
+        }
+        PayMut::Bytes(b) => {
+            v = b.apply(honest);
+            "byte-mutation"
+        }
+    };
+    (v, label)
+}
+
+fn apply_dah_mut(m: &DahMut, dah: &DataAvailabilityHeader, other: &DataAvailabilityHeader) -> Option<(DataAvailabilityHeader, &'static str)> {
+    let mut rows: Vec<NamespacedHash> = dah.row_roots().to_vec();
+    let mut cols: Vec<NamespacedHash> = dah.column_roots().to_vec();
+    let w = rows.len();
+    let ow = other.row_roots().len();
+    let label = match m {
+        DahMut::SwapRowCol => {
+            std::mem::swap(&mut rows, &mut cols);
+            "dah-swap-row-col"
+        }
+        DahMut::ReplaceCol { i, how, j } => {
+            let i = pick(*i, w);
+            cols[i] = match how {
+                0 => rows[i].clone(),
+                1 => other.column_roots()[pick(*j, ow)].clone(),
+                _ => cols[pick(*j, w)].clone(),
+            };
+            "dah-replace-col-root"
+        }
+        DahMut::ReplaceRow { i, how, j } => {
+            let i = pick(*i, w);
+            rows[i] = match how {
+                0 => cols[i].clone(),
+                1 => other.row_roots()[pick(*j, ow)].clone(),
+                _ => rows[pick(*j, w)].clone(),
+            };
+            "dah-replace-row-root"
+        }
+        DahMut::ColsOfOther => {
+            if ow != w {
+                return None;
+            }
+            cols = other.column_roots().to_vec();
+            "dah-cols-of-other"
+        }
+        DahMut::RowsOfOther => {
+            if ow != w {
+                return None;
+            }
+            rows = other.row_roots().to_vec();
+            "dah-rows-of-other"
+        }
+        DahMut::FlipRootByte { row_axis, i, byte, bit } => {
+            let i = pick(*i, w);
+            let tgt = if *row_axis { &mut rows[i] } else { &mut cols[i] };
+            let mut raw = tgt.to_array();
+            // only the hash part: keeps the node a well-formed namespaced hash
+            let b = 2 * NS + pick(*byte, 32);
+            raw[b] ^= 1 << (bit % 8);
+            *tgt = NamespacedHash::from_raw(&raw).ok()?;
+            if *row_axis { "dah-flip-row-root" } else { "dah-flip-col-root" }
+        }
+        DahMut::DropLastCol => {
+            cols.pop();
+            "dah-drop-last-col"
+        }
+        DahMut::DupLastRowAndCol => {
+            rows.push(rows[w - 1].clone());
+            cols.push(cols[w - 1].clone());
+            "dah-dup-last-roots"
+        }
+        DahMut::SwapTwoCols { a, b } => {
+            let (a, b) = (pick(*a, w), pick(*b, w));
+            cols.swap(a, b);
+            "dah-swap-two-cols"
+        }
+    };
+    let d = DataAvailabilityHeader::new_unchecked(rows, cols);
+    if &d == dah {
+        return None; // semantic no-op
+    }
+    Some((d, label))
+}
+
+/// first quadrant of `e`, row-major
+fn ods_bytes_of(e: &ExtendedDataSquare) -> Vec<u8> {
+    let k = e.square_width() / 2;
+    let mut v = Vec::with_capacity(k as usize * k as usize * SHARE);
+    for r in 0..k {
+        for c in 0..k {
+            v.extend_from_slice(e.share(r, c).unwrap().as_ref());
+        }
+    }
+    v
+}
+
+/// every row/column root of `e` recomputed with the harness' own NMT equals the DAH's roots
+fn ref_roots_match(e: &ExtendedDataSquare, dah: &DataAvailabilityHeader) -> Result<(), String> {
+    let w = e.square_width();
+    if dah.row_roots().len() != w as usize || dah.column_roots().len() != w as usize {
+        return Err(format!("DAH has {}x{} roots, square width {w}", dah.row_roots().len(), dah.column_roots().len()));
+    }
+    for i in 0..w {
+        if ref_axis_root(e, true, i).to_bytes()[..] != dah.row_roots()[i as usize].to_array()[..] {
+            return Err(format!("row root {i} of the returned square differs from the header's"));
+        }
+        if ref_axis_root(e, false, i).to_bytes()[..] != dah.column_roots()[i as usize].to_array()[..] {
+            return Err(format!("column root {i} of the returned square differs from the header's"));
+        }
+    }
+    Ok(())
+}
+
+struct Env<'a> {
+    sq: &'a Square,
+    honest: &'a [u8],
+}
+
+/// One oracle evaluation of the EDS decoder.
+/// `dah_honest`: the header carries exactly the square's DAH; `must_accept`: honest payload, honest
+/// DAH, the square's own app version.
+fn judge(
+    obs: &mut Obs,
+    env: &Env,
+    label: &str,
+    payload: &[u8],
+    header: &ExtendedHeader,
+    dah_honest: bool,
+    must_accept: bool,
+) -> Result<(), Failure> {
+    let mutated = payload != env.honest || !dah_honest;
+    let nontrivial = mutated && right_length_class(payload);
+    obs.eval(nontrivial.then(|| digest_bytes(payload) ^ digest_of(&header.dah.hash())));
+    obs.label(label);
+    if nontrivial {
+        obs.label("mutated-right-length-class");
+    }
+    let res = match no_panic(|| hook::shrex_decode_and_verify_eds(payload, header)) {
+        Ok(r) => r,
+        Err(rec) => {
+            obs.label("panicked");
+            return obs.fail(&panic_sig(&rec), format!("EDS decode_and_verify panicked on a {label} payload of {} bytes: {rec}", payload.len()));
+        }
+    };
+    match res {
+        Ok(e) => {
+            obs.label("accepted");
+            let w = env.sq.eds.square_width();
+            if ods_bytes_of(&e) != payload {
+                obs.fail("C09:returned-square-is-not-the-payload", format!("{label}: accepted, but the first quadrant of the returned EDS is not the payload"))?;
+            }
+            if let Err(why) = ref_roots_match(&e, &header.dah) {
+                obs.fail("C09:accepted-square-does-not-reproduce-dah", format!("{label}: accepted (width {w}), but {why}"))?;
+            }
+            if !dah_honest {
+                // header DAH differs from the square's: only a payload whose own extension has
+                // exactly these roots may pass (checked above); the honest square cannot.
+                if payload == env.honest {
+                    obs.fail("C09:accepted-under-foreign-dah", format!("{label}: honest payload accepted although the header's DAH differs from the square's DAH"))?;
+                }
+            } else {
+                if payload != env.honest {
+                    obs.fail("C09:accepted-payload-differs-from-ods", format!("{label}: payload differs from the committed ODS ({} vs {} bytes) but was accepted", payload.len(), env.honest.len()))?;
+                }
+                if e != env.sq.eds {
+                    obs.fail("C09:returned-square-differs-from-committed-eds", format!("{label}: returned EDS differs from the committed EDS"))?;
+                }
+            }
+        }
+        Err(err) => {
+            obs.label("rejected");
+            if must_accept {
+                obs.fail("C09:honest-rejected", format!("{label}: honest payload (ODS width {}) rejected: {err}", env.sq.eds.square_width() / 2))?;
+            }
+        }
+    }
+    Ok(())
+}
+
+fn run_eds_case(case: &Case, obs: &mut Obs) -> Result<(), Failure> {
+    let app = app_version_of(case.app);
+    let sq = build_square(&case.square, app);
+    let osq = build_square(&case.other, app);
+    let k = sq.eds.square_width() as usize / 2;
+    let n = k * k;
+    let seed = case.square.seed;
+    let height = 1 + seed % 1000;
+    let header = header_for(seed, height, case.app, sq.dah.clone());
+    let honest = concat(&sq.ods);
+    let other = concat(&osq.ods);
+    let env = Env { sq: &sq, honest: &honest };
+
+    // honest encoding is the row-major ODS the generator produced
+    let enc = hook::shrex_encode_eds(&sq.eds);
+    obs.eval(None);
+    obs.label("encode");
+    obs.check(enc == honest, "C09:encode-is-not-the-ods", || format!("encode(eds) differs from the generated ODS ({} vs {} bytes)", enc.len(), honest.len()))?;
+    judge(obs, &env, "honest", &enc, &header, true, true)?;
+    obs.label(&format!("ods-width-{k}"));
+
+    // wrong app version in the header (same DAH): soundness only
+    if case.wrong_app != case.app {
+        let h2 = header_for(seed, height, case.wrong_app, sq.dah.clone());
+        judge(obs, &env, "wrong-app-version-honest-payload", &honest, &h2, true, false)?;
+        if let Some(m) = case.muts.first() {
+            let (p, _) = apply_pay_mut(m, &honest, &other, k, seed);
+            judge(obs, &env, "wrong-app-version-mutated-payload", &p, &h2, true, false)?;
+        }
+    }
+
+    // empty
+    judge(obs, &env, "empty", &[], &header, true, false)?;
+    // every truncation at share granularity
+    for t in 0..n {
+        judge(obs, &env, "trunc-shares", &honest[..t * SHARE], &header, true, false)?;
+    }
+    // share counts that are not squares / not power-of-two squares (cyclic extension of the ODS)
+    for cnt in [2usize, 3, 5, 6, 8, 9, 12, 36, 100] {
+        let mut p = Vec::with_capacity(cnt * SHARE);
+        for i in 0..cnt {
+            p.extend_from_slice(&honest[(i % n) * SHARE..(i % n + 1) * SHARE]);
+        }
+        let label = match cnt {
+            9 | 36 | 100 => "count-non-pow2-square",
+            _ => "count-non-square",
+        };
+        judge(obs, &env, label, &p, &header, true, false)?;
+    }
+    // generated mutations of the payload
+    for m in &case.muts {
+        let (p, label) = apply_pay_mut(m, &honest, &other, k, seed);
+        if p == honest {
+            obs.label("mutation-noop");
+            continue;
+        }
+        judge(obs, &env, label, &p, &header, true, false)?;
+    }
+    // header DAH that is not the square's DAH (honest payload, transposed payload, other square)
+    let transposed = apply_pay_mut(&PayMut::Transpose, &honest, &other, k, seed).0;
+    for dm in &case.dah_muts {
+        let Some((d, label)) = apply_dah_mut(dm, &sq.dah, &osq.dah) else {
+            obs.label("dah-mutation-noop");
+            continue;
+        };
+        let h2 = header_for(seed, height, case.app, d);
+        judge(obs, &env, label, &honest, &h2, false, false)?;
+        match dm {
+            DahMut::SwapRowCol => judge(obs, &env, "dah-swap-row-col-transposed-payload", &transposed, &h2, false, false)?,
+            DahMut::ColsOfOther | DahMut::RowsOfOther => judge(obs, &env, "dah-mixed-other-payload", &other, &h2, false, false)?,
+            _ => {}
+        }
+    }
+    // the other square's header with this square's payload
+    if osq.dah != sq.dah {
+        let h3 = header_for(seed, height, case.app, osq.dah.clone());
+        judge(obs, &env, "payload-under-other-squares-header", &honest, &h3, false, false)?;
+    }
+    Ok(())
+}
+
+// ------------------------------------------------------------------------------------------ C05 (node half): ROW codec
+
+#[derive(Clone, Debug, Serialize, Deserialize)]
+pub enum RowMut {
+    FlipByte { share: u16, byte: u16, bit: u8 },
+    SwapShares { a: u16, b: u16 },
+    OtherRow { j: u16 },
+    DropShare { i: u16 },
+    AppendShare { i: u16 },
+    Reverse,
+    /// left-half shares sent with the Right flag and vice versa
+    FlipSide,
+    /// other half of the same row under the same flag
+    OtherHalfSameFlag,
+    /// unknown enum value for half_side
+    SideValue { v: i32 },
+    /// plain (not length-delimited) protobuf
+    NoLengthPrefix,
+    Bytes(ByteMut),
+}
+
+#[derive(Clone, Debug, Serialize, Deserialize)]
+pub struct RowCase {
+    pub square: SquareSpec,
+    pub app: u8,
+    pub rows: Vec<u16>,
+    pub muts: Vec<(bool, RowMut)>,
+}
+
+fn row_mut_strategy() -> impl Strategy<Value = RowMut> {
+    prop_oneof![
+        4 => (any::<u16>(), any::<u16>(), 0u8..8).prop_map(|(share, byte, bit)| RowMut::FlipByte { share, byte, bit }),
+        3 => (any::<u16>(), any::<u16>()).prop_map(|(a, b)| RowMut::SwapShares { a, b }),
+        3 => any::<u16>().prop_map(|j| RowMut::OtherRow { j }),
+        1 => any::<u16>().prop_map(|i| RowMut::DropShare { i }),
+        1 => any::<u16>().prop_map(|i| RowMut::AppendShare { i }),
+        1 => Just(RowMut::Reverse),
+        2 => Just(RowMut::FlipSide),
+        1 => Just(RowMut::OtherHalfSameFlag),
+        1 => prop_oneof![Just(2i32), Just(-1), Just(i32::MAX)].prop_map(|v| RowMut::SideValue { v }),
+        1 => Just(RowMut::NoLengthPrefix),
+        2 => byte_mut_strategy().prop_map(RowMut::Bytes),
+    ]
+}
+
+fn row_case_strategy(max_log2: u8) -> impl Strategy<Value = RowCase> {
+    (
+        square_strategy(0, max_log2),
+        1u8..=7,
+        prop::collection::vec(any::<u16>(), 6..10),
+        prop::collection::vec((any::<bool>(), row_mut_strategy()), 0..=30),
+    )
+        .prop_map(|(square, app, rows, muts)| RowCase { square, app, rows, muts })
+}
+
+fn raw_half(eds: &ExtendedDataSquare, i: u16, right: bool) -> RawRow {
+    let w = eds.square_width();
+    let half = w / 2;
+    let cols = if right { half..w } else { 0..half };
+    RawRow {
+        shares_half: cols.map(|c| RawShare { data: eds.share(i, c).unwrap().to_vec() }).collect(),
+        half_side: if right { HalfSide::Right as i32 } else { HalfSide::Left as i32 },
+    }
+}
+
+fn row_values(eds: &ExtendedDataSquare, i: u16) -> Vec<Vec<u8>> {
+    (0..eds.square_width()).map(|c| eds.share(i, c).unwrap().to_vec()).collect()
+}
+
+/// decode under id (i, height); Ok ⇒ shares must equal eds.row(i) by value
+fn judge_row(
+    obs: &mut Obs,
+    sq: &Square,
+    header: &ExtendedHeader,
+    i: u16,
+    label: &str,
+    bytes: &[u8],
+    must_accept: bool,
+    nontrivial: bool,
+) -> Result<(), Failure> {
+    let id = RowId::new(i, header.height()).unwrap();
+    obs.eval(nontrivial.then(|| digest_bytes(bytes) ^ ((i as u64) << 48)));
+    obs.label(label);
+    let res = match no_panic(|| hook::shrex_decode_and_verify_row(bytes, &id, header)) {
+        Ok(r) => r,
+        Err(rec) => {
+            obs.label("row-panicked");
+            return obs.fail(&panic_sig(&rec), format!("ROW decode_and_verify panicked ({label}, row {i}, width {}): {rec}", sq.eds.square_width()));
+        }
+    };
+    let want = row_values(&sq.eds, i);
+    match res {
+        Ok(row) => {
+            obs.label("row-accepted");
+            let got: Vec<Vec<u8>> = row.shares.iter().map(|s| s.to_vec()).collect();
+            if got != want {
+                obs.fail("C05:shrex-accepted-row-differs-from-committed-row", format!("{label}: row accepted for index {i} (EDS width {}) but its shares are not eds.row({i})", sq.eds.square_width()))?;
+            }
+            // parity flags as the EDS has them
+            let flags_ok = row.shares.iter().zip(sq.eds.row(i).unwrap().iter()).all(|(a, b)| a.is_parity() == b.is_parity());
+            if !flags_ok {
+                obs.fail("C05:shrex-row-parity-flags", format!("{label}: accepted row {i} has parity flags different from eds.row({i})"))?;
+            }
+        }
+        Err(e) => {
+            obs.label("row-rejected");
+            if must_accept {
+                obs.fail("C05:shrex-honest-row-rejected", format!("{label}: honest row {i} (EDS width {}) rejected: {e}", sq.eds.square_width()))?;
+            }
+        }
+    }
+    Ok(())
+}
+
+fn run_row_case(case: &RowCase, obs: &mut Obs) -> Result<(), Failure> {
+    let app = app_version_of(case.app);
+    let sq = build_square(&case.square, app);
+    let eds = &sq.eds;
+    let w = eds.square_width();
+    let half = w / 2;
+    let seed = case.square.seed;
+    let header = header_for(seed, 1 + seed % 100_000, case.app, sq.dah.clone());
+    obs.label(&format!("row-eds-width-{w}"));
+    for i in 0..w {
+        let row = Row::new(i, eds).map_err(|e| Failure::new("gen", format!("Row::new: {e}")))?;
+        // left half through the hooked encoder
+        let left = hook::shrex_encode_row(&row);
+        let want_left = raw_half(eds, i, false).encode_length_delimited_to_vec();
+        obs.eval(None);
+        obs.label("row-encode");
+        obs.check(left == want_left, "C05:shrex-row-encode", || format!("encode(row {i}) is not the length-delimited left half"))?;
+        judge_row(obs, &sq, &header, i, "row-left-honest", &left, true, false)?;
+        // right half, hand-built
+        let right = raw_half(eds, i, true).encode_length_delimited_to_vec();
+        judge_row(obs, &sq, &header, i, "row-right-honest", &right, true, true)?;
+        if i >= half {
+            obs.label("row-parity-row");
+        }
+    }
+    // a response for row j presented under id i: every (i, j) for small squares, sampled otherwise
+    let pairs: Vec<(u16, u16)> = if w <= 8 {
+        (0..w).flat_map(|i| (0..w).map(move |j| (i, j))).filter(|(i, j)| i != j).collect()
+    } else {
+        case.rows
+            .iter()
+            .flat_map(|s| {
+                let i = pick(*s, w as usize) as u16;
+                [(i, (i + 1) % w), (i, (i + half) % w), (i, pick(s.rotate_left(7), w as usize) as u16)]
+            })
+            .filter(|(i, j)| i != j)
+            .collect()
+    };
+    for (i, j) in pairs {
+        let differs = row_values(eds, i) != row_values(eds, j);
+        for right in [false, true] {
+            let b = raw_half(eds, j, right).encode_length_delimited_to_vec();
+            judge_row(obs, &sq, &header, i, if right { "row-other-index-right" } else { "row-other-index-left" }, &b, false, differs)?;
+        }
+    }
+    // generated mutants
+    for (k, (right, m)) in case.muts.iter().enumerate() {
+        let i = pick(case.rows[k % case.rows.len()], w as usize) as u16;
+        let honest = raw_half(eds, i, *right);
+        let honest_bytes = honest.encode_length_delimited_to_vec();
+        let mut raw = honest.clone();
+        let n = raw.shares_half.len();
+        let mut bytes: Option<Vec<u8>> = None;
+        let label = match m {
+            RowMut::FlipByte { share, byte, bit } => {
+                let s = pick(*share, n);
+                raw.shares_half[s].data[pick(*byte, SHARE)] ^= 1 << (bit % 8);
+                "row-mut-flip-byte"
+            }
+            RowMut::SwapShares { a, b } => {
+                raw.shares_half.swap(pick(*a, n), pick(*b, n));
+                "row-mut-swap-shares"
+            }
+            RowMut::OtherRow { j } => {
+                raw = raw_half(eds, pick(*j, w as usize) as u16, *right);
+                "row-mut-other-row"
+            }
+            RowMut::DropShare { i } => {
+                raw.shares_half.remove(pick(*i, n));
+                "row-mut-drop-share"
+            }
+            RowMut::AppendShare { i } => {
+                let s = raw.shares_half[pick(*i, n)].clone();
+                raw.shares_half.push(s);
+                "row-mut-append-share"
+            }
+            RowMut::Reverse => {
+                raw.shares_half.reverse();
+                "row-mut-reverse"
+            }
+            RowMut::FlipSide => {
+                raw.half_side = if *right { HalfSide::Left as i32 } else { HalfSide::Right as i32 };
+                "row-mut-flip-side"
+            }
+            RowMut::OtherHalfSameFlag => {
+                let o = raw_half(eds, i, !*right);
+                raw.shares_half = o.shares_half;
+                "row-mut-other-half-same-flag"
+            }
+            RowMut::SideValue { v } => {
+                raw.half_side = *v;
+                "row-mut-side-value"
+            }
+            RowMut::NoLengthPrefix => {
+                bytes = Some(raw.encode_to_vec());
+                "row-mut-no-length-prefix"
+            }
+            RowMut::Bytes(b) => {
+                bytes = Some(b.apply(&honest_bytes));
+                "row-mut-bytes"
+            }
+        };
+        let bytes = bytes.unwrap_or_else(|| raw.encode_length_delimited_to_vec());
+        if bytes == honest_bytes {
+            obs.label("row-mutation-noop");
+            continue;
+        }
+        judge_row(obs, &sq, &header, i, label, &bytes, false, true)?;
+    }
+    Ok(())
+}
+
+// ------------------------------------------------------------------------------------------ run
+
+pub fn run(ctx: &mut Ctx) {
+    ctx.assume("ground truth: the ODS bytes produced by the harness' own square generator, its extension by ExtendedDataSquare::from_ods (C08 checks that encoder) and, for every accepted square, row/column roots recomputed with the harness' own sha2 NMT and compared with the header's DAH");
+    ctx.assume("headers are built by lv_gen::chain::build_header around the (possibly modified) DAH; the decoder only reads header.dah, header.height() and header.app_version()");
+    ctx.assume("a panic of the decoder is a violation (C09 says 'rejected without panicking'); the ROW sub-check (node half of C05) treats panics the same way because shrex responses are remote input");
+    ctx.essential(&[
+        "honest",
+        "accepted",
+        "rejected",
+        "trunc-shares",
+        "trunc-bytes",
+        "append-share",
+        "swap-shares",
+        "flip-namespace",
+        "flip-info-byte",
+        "flip-payload",
+        "wrong-app-version-honest-payload",
+        "other-square",
+        "empty",
+        "count-non-square",
+        "count-non-pow2-square",
+        "mutated-right-length-class",
+        "dah-replace-col-root",
+        "dah-replace-row-root",
+        "row-left-honest",
+        "row-right-honest",
+        "row-parity-row",
+        "row-other-index-left",
+        "row-other-index-right",
+        "row-mut-flip-byte",
+        "row-mut-swap-shares",
+        "row-mut-flip-side",
+        "row-accepted",
+        "row-rejected",
+    ]);
+    let max_log2 = ctx.tier.pick(4, 5); // ODS width up to 16 quick, 32 thorough
+    let cases = ctx.tier.pick(320, 1600);
+    let nmuts = ctx.tier.pick(60, 100);
+    ctx.proptest(
+        "eds-codec",
+        "per generated square (ODS width 1..16, thorough 32; structured or dummy) and header over its DAH: honest payload via the hooked encode must be accepted and returned as the committed EDS; empty, every truncation at share granularity, non-square and non-power-of-two-square share counts, generated mutations (byte truncation, appended/dropped/duplicated share, two shares/rows swapped, transposition, bit flips in namespace version/id, info byte, sequence length, payload, last byte; share of / whole ODS of another square; zeroed share; 2x/4x repetition; generic byte/protobuf mutators), wrong app version in the header, and headers whose DAH differs from the square's (row/col swapped, one root replaced, roots of another square, flipped hash bit, dropped/duplicated roots). Ok(e) => first quadrant of e == payload, reference NMT roots of e == header DAH, payload == ODS and e == committed EDS; byte-different payload or foreign DAH => Err; never a panic. Non-trivial = payload or DAH changed by value AND the payload passes the size checks (non-empty, multiple of 512, 4^k shares); distinct by payload+DAH digest",
+        cases,
+        move || case_strategy(max_log2, nmuts),
+        run_eds_case,
+    );
+    let row_log2 = ctx.tier.pick(5, 7); // EDS width up to 64 quick, 256 thorough
+    let row_cases = ctx.tier.pick(160, 800);
+    ctx.proptest(
+        "c05-shrex-row",
+        "node half of C05: per generated square (EDS width 2..64, thorough 256) and every row index (data and parity rows): hooked encode(row) == length-delimited left half; decode_and_verify of the left half and of a hand-built right-half response must both be accepted and reproduce eds.row(i) by value (and parity flags); responses for row j under id i (all pairs for width<=8, sampled above), and mutants (byte flip, shares swapped/dropped/appended/reversed, other row, side flag flipped, other half under the same flag, unknown side value, missing length prefix, generic byte/protobuf mutators): Ok => shares == eds.row(i) by value; never a panic. Non-trivial = right-half reconstruction, a row j whose value differs from row i, or a mutant whose encoding differs from the honest one",
+        row_cases,
+        move || row_case_strategy(row_log2),
+        run_row_case,
+    );
 }
